@@ -1,4 +1,5 @@
-BINARIES = {'c20': {'pkg': './cmd/c20', 'overlay': 'shim', 'flags': ['-gcflags=all=-l']}}
+BINARIES = {'c20': {'pkg': './cmd/c20', 'overlay': 'shim', 'flags': ['-gcflags=all=-l']},
+            'c20bb': {'pkg': './cmd/c20bb', 'overlay': 'shim', 'flags': ['-gcflags=all=-l']}}
 
 SPEC = {
     'level': 'model_checking',
@@ -9,8 +10,10 @@ SPEC = {
     'jobs': [
         {'bin': 'c20', 'sub': 'seq', 'shards': 8, 'maxcases': 3000, 'max_restarts': 40},
         {'bin': 'c20', 'sub': 'conc', 'shards': 8},
+        # exported API only, one fresh process per trial (concurrent first use, then exhaustion): free-running side pass
+        {'bin': 'c20bb', 'sub': 'blackbox', 'shards': 32},
     ],
-    'rule': 'seq: all sequences over sizes {0,1,20,48,R/2,R-48,R,R+1,2^47+1} x (direct fallback | Acquire x all 2^len mmap ok/fail patterns), non-trivial = contains a request in (0,R]; after the last request every region is filled completely in reverse order, all are read back, and the never-handed-out rest of the reserve must be pristine. '
+    'rule': 'blackbox (sampled side pass, 32 fresh processes, exported API only, reserve bound taken from the runtime function table): first use of the allocator by 8 goroutines at once, then 48-byte requests until exhaustion: disjoint, inside stub.Placeholder\'s slot, written and read back, exhaustion reported in time. seq: all sequences over sizes {0,1,20,48,R/2,R-48,R,R+1,2^47+1} x (direct fallback | Acquire x all 2^len mmap ok/fail patterns), non-trivial = contains a request in (0,R]; after the last request every region is filled completely in reverse order, all are read back, and the never-handed-out rest of the reserve must be pristine. '
             'conc: all configurations of 2 threads (and 3 threads) x per-thread request lists of length 1..2 over {48,R/2,R}; for each, ALL interleavings at the '
             'atomic operations (unbounded preemptions, visited-set on (cells, per-thread pc and observation hash)); distinct_nontrivial counts executions containing >=1 preemption.',
     'assumptions': ['the fallback allocator shares no state other than its offset word (checked: all accesses go through sync/atomic)',
